@@ -256,6 +256,45 @@ func runC11(r *mon.Run) {
 	})
 }
 
+// the last clause of the property: a signature produced by THIS library's signer carries an id
+// that recovers the signer, and no other id does
+func init() {
+	prev := registry["C11"].Run
+	registry["C11"].Run = func(r *mon.Run) {
+		r.Require("c11:library-signer")
+		r.Each("c11/library-signer", r.N(400, 20000), func(w *mon.W, i int) {
+			rng := w.Rng
+			d, dcl := keyValue(rng)
+			priv := mustPriv(d)
+			Q := oracle.MulG(d)
+			dig, _ := digestValue(rng, false)
+			var rs, ss *Scalar
+			var v byte
+			var err error
+			if i%2 == 0 {
+				rs, ss, v, err = priv.SignRaw(secec.RFC6979SHA256(), dig)
+			} else {
+				rs, ss, v, err = priv.SignRaw(&fixedReader{data: rng.Bytes(32)}, dig)
+			}
+			w.Case(true, []byte("library-signer"), b32(d), dig)
+			w.Class("c11:library-signer")
+			if err != nil {
+				w.Fail("c11/library-signer:sign", "SignRaw failed: "+err.Error(), "d", hb(d), "class", dcl)
+				return
+			}
+			for id := byte(0); id < 4; id++ {
+				k, err := secec.RecoverPublicKey(dig, rs, ss, id)
+				isSigner := err == nil && bytes.Equal(k.Bytes(), oracle.EncodeUncompressed(Q))
+				if isSigner != (id == v) {
+					w.Fail("c11/library-signer", fmt.Sprintf("SignRaw emitted id %d; RecoverPublicKey(id=%d) recovers the signer: %v (err %v)", v, id, isSigner, err), "d", hb(d), "digest", hx(dig), "r", hx(rs.Bytes()), "s", hx(ss.Bytes()), "class", dcl)
+					return
+				}
+			}
+		})
+		prev(r)
+	}
+}
+
 func nonzero(v *big.Int) *big.Int {
 	if v.Sign() == 0 {
 		return big.NewInt(1)
